@@ -890,6 +890,11 @@ class HStep(Step):
                 new = node
                 post = lambda: M.assign_into(schema, t, node, vnode)  # noqa: E731
             elif k == "struct":
+                if raw_holder and "*" in path:
+                    # the part is reached through a reference that the library hands out undressed (after
+                    # a restart): replacing it through that raw view goes behind the back of the dressed
+                    # object that owns the part (same class as raw reference rebinding: not generated)
+                    raise Skip()
                 if form == "obj" and op.get("refuse"):
                     src = self.get_obj(v["obj"])
                     f0 = schema[t]["fields"][0][0] if schema[t]["fields"] else None
@@ -989,6 +994,8 @@ class HStep(Step):
             post()
         if replace_whole and self.pre_layout is not None:
             self.pre_layout.pop(o.k, None)  # its nested layout legitimately changed
+            if "*" in path:
+                self.pre_layout = None  # (the part lives in another object, reached through a reference)
         self.res.probe("h_set_" + k + "_" + form)
 
     def _part_size(self, o, path):
